@@ -111,6 +111,13 @@ def work(tier, seed):
                 cfg = to_cfg(BASE[1], pc, seed)
                 cfg.update(pdtype=pd, prec_dtype="f64" if pd == "f64" else "f32", lr=lr)
                 units.append({"cfg": cfg, "backend": backend, "mode": False})
+    # ignored dimensions (the factor updates / preconditioning skip a dimension lower than a preconditioned one)
+    for pc in (["shampoo", {"ignored": [0]}], ["soap", {"ignored": [0]}], ["shampoo", {"ignored": [1]}]):
+        for backend in ("eager", "aot_eager"):
+            for bi in (0, 1):
+                if tier == "quick" and (bi + (backend == "eager")) % 2:
+                    continue
+                units.append({"cfg": to_cfg(BASE[bi], pc, seed), "backend": backend, "mode": False})
     # a group step that raises (failed root computations beyond the tolerance): the state left behind must agree as well
     for backend in ("eager", "aot_eager"):
         cfg = to_cfg(BASE[2], ["shampoo", {"solver": "higher", "iters": 1, "stol": 0.0, "tol": 0}], seed)
